@@ -94,7 +94,7 @@ fn gs_edges_key(g: &GS) -> Vec<String> {
 
 pub fn run_c14(a: &Args) {
     let kinds = kinds8();
-    let total: u64 = if a.thorough { 120_000 } else { 30_000 };
+    let total: u64 = if a.thorough { 1_500_000 } else { 30_000 };
     let tmpdir = format!("/verif/.work/c14-{}-{}", std::process::id(), a.shard);
     let _ = std::fs::create_dir_all(&tmpdir);
     for idx in 0..total {
@@ -706,7 +706,7 @@ pub fn run_c19(a: &Args) {
         ctx::nontrivial(depth as u64);
     }
     // (a) grammar-generated documents
-    let docs: u64 = if a.thorough { 6_000 } else { 1_500 };
+    let docs: u64 = if a.thorough { 60_000 } else { 1_500 };
     let base_a = 1000;
     for r in 0..docs {
         let this = base_a + r;
@@ -723,7 +723,7 @@ pub fn run_c19(a: &Args) {
     }
     // (b) fault enumeration over well-formed base documents: every truncation, every single-byte
     // deletion and duplication, bit flips that keep the text valid UTF-8
-    let bases: u64 = if a.thorough { 200 } else { 40 };
+    let bases: u64 = if a.thorough { 1_500 } else { 40 };
     let base_b = 100_000;
     for r in 0..bases {
         let this = base_b + r;
